@@ -125,13 +125,15 @@ int ops_misc(char **args, int na)
 		else printf("exit:%d\n", WEXITSTATUS(st));
 		return 0;
 	}
-	if (!strcmp(op, "cz.huge") && na == 4) {
+	if (!strcmp(op, "cz.huge") && (na == 4 || na == 5)) {
 		/* cz.huge <algo> <level> <n>: n bytes of untouched anonymous zero pages (nothing is reserved) through compress and, when it
 		 * reports success, decompress: sizes around the codecs' own input limits (LZ4_MAX_INPUT_SIZE = 0x7E000000, INT_MAX).
 		 * reply as cz.big, or nomem */
 		size_t n = strtoull(args[3], NULL, 10);
-		uint8_t *in = mmap(NULL, n, PROT_READ, MAP_PRIVATE | MAP_ANONYMOUS | MAP_NORESERVE, -1, 0);
+		int rnd = na == 5 && !strcmp(args[4], "random");      /* incompressible contents: the pages are really written */
+		uint8_t *in = mmap(NULL, n + 8, PROT_READ | (rnd ? PROT_WRITE : 0), MAP_PRIVATE | MAP_ANONYMOUS | MAP_NORESERVE, -1, 0);
 		if (in == MAP_FAILED) { puts("nomem"); return 0; }
+		if (rnd) { uint64_t x = 0x9E3779B97F4A7C15ull ^ n; for (size_t i = 0; i < n; i += 8) { x ^= x << 13; x ^= x >> 7; x ^= x << 17; memcpy(in + i, &x, 8); } }
 		fflush(stdout);
 		pid_t pid = fork();
 		if (pid == 0) {
@@ -140,10 +142,11 @@ int ops_misc(char **args, int na)
 			if (wrap_compress(atoi(args[1]), args[2], in, n, &out, &on) != mtbl_res_success) _exit(11);
 			if (mtbl_decompress(atoi(args[1]), out, on, &back, &bn) != mtbl_res_success) _exit(12);
 			if (bn != n) _exit(13);
-			for (size_t i = 0; i < n; i += 4096) if (back[i]) _exit(13);
+			if (rnd) { if (memcmp(back, in, n)) _exit(13); }
+			else for (size_t i = 0; i < n; i += 4096) if (back[i]) _exit(13);
 			_exit(10);
 		}
-		int st = 0; waitpid(pid, &st, 0); munmap(in, n);
+		int st = 0; waitpid(pid, &st, 0); munmap(in, n + 8);
 		if (WIFEXITED(st) && WEXITSTATUS(st) == 10) puts("ok");
 		else if (WIFEXITED(st) && WEXITSTATUS(st) == 11) puts("cfail");
 		else if (WIFEXITED(st) && WEXITSTATUS(st) == 12) puts("dfail");
